@@ -84,7 +84,8 @@ static int decrunch_xz(HIO_HANDLE *in, void **out, long *outlen)
 
 	xz_dec_end(xz);
 
-	if ((tmp = (uint8 *) realloc(buf.out, buf.out_pos)) != NULL)
+	/* realloc(ptr, 0) may free ptr and return NULL. */
+	if (buf.out_pos > 0 && (tmp = (uint8 *) realloc(buf.out, buf.out_pos)) != NULL)
 		buf.out = tmp;
 
 	*out = buf.out;
